@@ -369,6 +369,10 @@ def run(ck):
     ok, _ = ck.coq_build(["props/C04.vo", "extract/C04_extract.vo"])
     ck.print_assumptions(["DSP.C04"], ["DSP.C04." + t for t in THEOREMS])
     ck.source_tie("findcmds")
+    ck.source_tie("flowfor")
+    ck.source_tie("flowwhile")
+    ck.source_tie("flowfn")
+    ck.source_tie("flowif")
     ck.hygiene()
     ck.ocaml_build()
     ck.harness_build(["c04"])
